@@ -25,7 +25,7 @@ ORDER = ["side_partial_cmp", "ub_partial_cmp", "ub_matches", "ub_try_into_range"
          "ubl_bounds_only", "ubl_is_sortable", "ubl_is_sorted", "ubl_has_negative_indices", "ubl_is_forward_only",
          "fast_try_from", "stream_try_from", "fb_try_from", "side_from_str", "ub_from_str",
          "ubl_unpack", "ubl_complement", "cut_bytes", "fast_output_parts", "fast_cut_record",
-         "fill_fields", "compress_delimiter", "trim", "maybe_replace", "fill_regex", "trim_regex", "compress_regex", "read_and_cut_lines"]
+         "fill_fields", "compress_delimiter", "trim", "maybe_replace", "fill_regex", "trim_regex", "compress_regex", "read_and_cut_lines", "cut_str"]
 DEPS = {"ub_partial_cmp": ["side_partial_cmp"], "ub_from_range": ["ub_new"], "ub_unpack": ["ub_new", "ub_try_into_range"],
         "ub_complement": ["ub_try_into_range", "complement_std_range", "ub_from_range", "ub_new"],
         "ubl_is_sortable": ["ubl_bounds_only"], "ubl_is_sorted": ["ubl_bounds_only", "ub_partial_cmp", "side_partial_cmp"],
@@ -35,6 +35,8 @@ DEPS = {"ub_partial_cmp": ["side_partial_cmp"], "ub_from_range": ["ub_new"], "ub
         "cut_bytes": ["ub_try_into_range", "ubl_unpack", "ub_unpack", "ub_new"],
         "fast_output_parts": ["ub_try_into_range"],
         "compress_delimiter": ["fill_fields"],
+        "cut_str": ["trim", "trim_regex", "fill_fields", "compress_delimiter", "compress_regex", "fill_regex", "ubl_complement", "ubl_unpack", "ub_try_into_range", "maybe_replace",
+                    "ub_complement", "complement_std_range", "ub_from_range", "ub_new", "ub_unpack", "ubl_has_negative_indices", "ubl_bounds_only"],
         "read_and_cut_lines": ["ubl_is_forward_only", "ubl_bounds_only", "ubl_is_sortable", "ubl_is_sorted", "ubl_has_negative_indices", "ub_partial_cmp", "side_partial_cmp"],
         "fb_try_from": ["ubl_is_forward_only", "ubl_bounds_only", "ubl_is_sortable", "ubl_is_sorted", "ubl_has_negative_indices", "ub_partial_cmp", "side_partial_cmp"],
         "fast_cut_record": ["fast_output_parts", "ub_try_into_range", "fast_try_from"],
@@ -72,6 +74,7 @@ USES = {
     "trim": ["C01", "C12"],
     "maybe_replace": ["C01", "C16"],
     "read_and_cut_lines": ["C05"],
+    "cut_str": ["C01", "C10", "C12", "C13"],
     "compress_regex": ["C16"],
     "fill_regex": ["C16"],
     "trim_regex": ["C16"],
@@ -131,9 +134,9 @@ def tie_check():
     model_vos += [os.path.join(COQ, "Model", "BoundsParse.vo"), os.path.join(COQ, "Proofs", "C18Iff.vo")]
     model_vos += [os.path.join(COQ, "Model", "Scan.vo"), os.path.join(COQ, "Proofs", "ScanSplit.vo"), os.path.join(COQ, "Proofs", "C02.vo")]
     model_vos += [os.path.join(COQ, "Model", "CutStr.vo"), os.path.join(COQ, "Proofs", "C16Replace.vo"), os.path.join(COQ, "Proofs", "C16.vo"), os.path.join(COQ, "Proofs", "C12.vo"), os.path.join(COQ, "Model", "CutLines.vo"), os.path.join(COQ, "Proofs", "C05Full.vo")]
-    for b in ("RsPrelude", "TieBase", "RsOpt", "RsStr", "RsList", "RsScan", "RsRegex", "RsLines"):
+    for b in ("RsPrelude", "TieBase", "RsOpt", "RsStr", "RsList", "RsScan", "RsRegex", "RsLines", "RsCut"):
         src = os.path.join(TIE, b + ".v")
-        if not _fresh(b, [src] + (model_vos[:1] if b not in ("RsOpt", "RsStr", "RsRegex", "RsLines") else [model_vos[0], model_vos[4], os.path.join(COQ, "Model", "BoundsParse.vo"), os.path.join(COQ, "Model", "CutStr.vo"), os.path.join(COQ, "Model", "CutLines.vo")]) + base):
+        if not _fresh(b, [src] + (model_vos[:1] if b not in ("RsOpt", "RsStr", "RsRegex", "RsLines", "RsCut") else [model_vos[0], model_vos[4], os.path.join(COQ, "Model", "BoundsParse.vo"), os.path.join(COQ, "Model", "CutStr.vo"), os.path.join(COQ, "Model", "CutLines.vo")]) + base):
             rc, out = _coqc(b)
             if rc != 0:
                 raise BuildError("Tie/%s.v does not compile:\n%s" % (b, out[-2000:]))
